@@ -97,24 +97,32 @@ theorem condEdges_spec {V nodes : List Nat} {adj : Adj} {comps : List (List Nat)
       ∃ v ∈ nodes, compIdx comps v = some i ∧ ∃ w ∈ adj v, compIdx comps w = some j ∧ j ≠ i) := by
     intro i hi j
     rw [getD_of_lt (by rw [hlen]; exact hi)]
-    simp only [condEdges, List.getElem_map, List.getElem_range, mem_dedup, List.mem_flatMap,
-      List.mem_filter, List.mem_filterMap, beq_iff_eq]
+    simp only [condEdges, condPairs, List.getElem_map, List.getElem_range, mem_dedup, List.mem_map,
+      List.mem_filter, List.mem_flatMap, beq_iff_eq]
     constructor
-    · rintro ⟨v, ⟨hv, hvi⟩, w, hw, hj⟩
-      refine ⟨v, hv, hvi, w, hw, ?_⟩
-      split at hj
-      · rename_i j' hj'
-        split at hj
-        · rename_i hne
-          have : j' = j := by simpa using hj
-          subst this
-          exact ⟨hj', by simpa using hne⟩
-        · cases hj
-      · cases hj
+    · rintro ⟨⟨a, b⟩, ⟨⟨v, hv, hp⟩, hai⟩, hbj⟩
+      simp only at hai hbj
+      subst hai; subst hbj
+      cases hci : compIdx comps v with
+      | none => simp [hci] at hp
+      | some i' =>
+        simp only [hci, List.mem_filterMap] at hp
+        obtain ⟨w, hw, hp⟩ := hp
+        cases hcj : compIdx comps w with
+        | none => simp [hcj] at hp
+        | some j' =>
+          simp only [hcj] at hp
+          by_cases hne : j' = i'
+          · simp [hne] at hp
+          · simp only [bne_iff_ne, ne_eq, hne, not_false_eq_true, if_true, Option.some.injEq,
+              Prod.mk.injEq] at hp
+            obtain ⟨h1, h2⟩ := hp
+            subst h1; subst h2
+            exact ⟨v, hv, hci, w, hw, hcj, hne⟩
     · rintro ⟨v, hv, hvi, w, hw, hwj, hne⟩
-      refine ⟨v, ⟨hv, hvi⟩, w, hw, ?_⟩
-      rw [hwj]
-      simp [hne]
+      refine ⟨(i, j), ⟨⟨v, hv, ?_⟩, rfl⟩, rfl⟩
+      simp only [hvi, List.mem_filterMap]
+      exact ⟨w, hw, by simp [hwj, hne]⟩
   refine ⟨D, hlen, ?_, ?_⟩
   · intro l hl j hj
     obtain ⟨i, hi, rfl⟩ := List.mem_iff_getElem.1 hl
